@@ -116,11 +116,12 @@ func Open(options Options) (*DB, error) {
 
 	// 如果 merge 成功, 尝试使用 hint 文件快速加载索引
 	if nonMergeFileId > 0 {
-		maxFileId, err := db.loadIndexFromHintFile()
+		hintedFileId, err := db.loadIndexFromHintFile()
 		if err != nil {
 			return nil, err
 		}
-		nonMergeFileId = min(maxFileId, nonMergeFileId)
+		// 已由 hint 文件加载的数据文件无需再次扫描
+		nonMergeFileId = min(hintedFileId, nonMergeFileId)
 	}
 
 	if db.activeFile == nil {
